@@ -112,7 +112,27 @@ func (u uMarshalerTo) MarshalJSONTo(e *jsontext.Encoder) error {
 		}
 		return nil
 	}
-	switch u.ID % 16 {
+	switch u.ID % 18 {
+	case 16, 17: // declines (ErrUnsupported) after having opened a container of its own and filled it
+		// with as many elements as the caller's container holds already: depth is off by one, the
+		// count of values is the one it came in with
+		_, n := e.StackIndex(e.StackDepth())
+		if u.ID%18 == 16 {
+			e.WriteToken(jsontext.BeginArray)
+			for i := int64(0); i < n; i++ {
+				e.WriteToken(jsontext.Int(i))
+			}
+		} else {
+			e.WriteToken(jsontext.BeginObject)
+			for i := int64(0); i < n/2; i++ {
+				e.WriteToken(jsontext.String(strconv.FormatInt(i, 10)))
+				e.WriteToken(jsontext.Null)
+			}
+			if n%2 == 1 {
+				e.WriteToken(jsontext.String("odd"))
+			}
+		}
+		return errors.ErrUnsupported
 	case 12: // leaves at the depth it came in at - but in another container of the same kind
 		e.WriteToken(jsontext.Int(1))
 		if e.WriteToken(jsontext.EndArray) != nil {
@@ -811,7 +831,11 @@ func driveArshal(args map[string]string) error {
 		case "sweep":
 			c07SweepExec(c)
 		case "semerr":
-			semErrExec(c)
+			if c.Seed[0]%3 == 0 {
+				marshalPosExec(c)
+			} else {
+				semErrExec(c)
+			}
 		case "merge":
 			c14Exec(c)
 		case "ambig":
@@ -1548,7 +1572,115 @@ func semErrExec(c *arshalCase) {
 		kind = "other"
 		c.Note = truncate(err.Error(), 200)
 	}
-	c.Tree = map[string]any{"off": off, "kind": kind, "eoff": eoff, "eptr": eptr}
+	// the same text from a reader, cut inside the delimiter / white space run before the value,
+	// right before the value, in single bytes, in small pieces: the same final error (C05)
+	streams := [][]any{}
+	for _, chunks := range [][]int{{max(off-1, 1), 1 << 20}, {max(off-2, 1), 1 << 20}, {max(off-len(ws)-1, 1), 1, 1 << 20}, {max(off, 1), 1 << 20}, {1}, {3}, {7, 0, 2}} {
+		ps := reflect.New(t)
+		errS := jsonv2.UnmarshalRead(&scriptedReader{data: out, chunks: chunks}, ps.Interface())
+		var ses *jsonv2.SemanticError
+		k2, o2, p2 := "nil", int64(-1), [][]int{}
+		switch {
+		case errors.As(errS, &ses):
+			k2, o2, p2 = "semantic", ses.ByteOffset, pointerTokens(ses.JSONPointer)
+		case errS != nil:
+			k2 = "other"
+		}
+		streams = append(streams, []any{k2, o2, p2})
+	}
+	c.Tree = map[string]any{"off": off, "kind": kind, "eoff": eoff, "eptr": eptr, "streams": streams}
+}
+
+// c16Leaf is a value whose marshal function looks at the Encoder's position
+type c16Leaf int64
+
+// marshalPosExec: positions on the way out.  Values of a marker type are placed at random depths
+// of a generated type (struct fields, elements, map values, behind pointers); a MarshalToFunc for
+// the marker writes a number that occurs nowhere else and notes Encoder.StackPointer right after.
+// The record is the one of semErrExec: the complete output, the offset of one marker's number in
+// it, and the pointer that was seen there - Decoder.tla computes the pointer of that token.
+func marshalPosExec(c *arshalCase) {
+	defer func() {
+		if r := recover(); r != nil {
+			c.Panic = fmt.Sprint(r)
+		}
+		c.norm()
+	}()
+	r := rand.New(rand.NewPCG(c.Seed[0], c.Seed[1]))
+	cfg := &typeCfg{maxDepth: 1 + r.IntN(3), maxFields: 1 + r.IntN(4), tags: r.IntN(2) == 0, mapKeys: []string{"string"}, plainNames: r.IntN(2) == 0}
+	var wrap func(depth int) *tdesc
+	wrap = func(depth int) *tdesc {
+		if depth == 0 {
+			return &tdesc{K: "leaf16"}
+		}
+		in := wrap(depth - 1)
+		switch r.IntN(5) {
+		case 0:
+			return &tdesc{K: "slice", Elem: in}
+		case 1:
+			return &tdesc{K: "map", Key: &tdesc{K: "string"}, Elem: in}
+		case 2:
+			return &tdesc{K: "ptr", Elem: in}
+		}
+		// a struct with the marker's branch somewhere between other fields
+		t := &tdesc{K: "struct"}
+		for i, n := 0, r.IntN(4); i < n; i++ {
+			t.Fields = append(t.Fields, fdesc{Go: fmt.Sprintf("P%d", i), T: genTypeDesc(r, cfg, 2)})
+		}
+		f := fdesc{Go: "M", T: in}
+		if r.IntN(3) == 0 {
+			f.Tag = `json:"m~/\u00e9,omitempty"`
+		}
+		t.Fields = append(t.Fields, f)
+		for i, n := 0, r.IntN(3); i < n; i++ {
+			t.Fields = append(t.Fields, fdesc{Go: fmt.Sprintf("Q%d", i), T: genTypeDesc(r, cfg, 2)})
+		}
+		return t
+	}
+	td := wrap(1 + r.IntN(4))
+	t := buildType(td)
+	c.Type = truncate(t.String(), 300)
+	v := genGoValue(r, &valCfg{}, t, 0)
+	sets := []string{"default", "multiline", "multiline", "deterministic", "escape", "nilasnull", "omitzero"}
+	c.Opts = arshalOpts{Name: sets[r.IntN(len(sets))]}
+	opts := c.Opts.options(r)
+	if r.IntN(4) == 0 {
+		opts = append(opts, jsontext.SpaceAfterColon(true), jsontext.SpaceAfterComma(true))
+	}
+	type seen struct {
+		lit string
+		ptr [][]int
+	}
+	var calls []seen
+	opts = append(opts, jsonv2.WithMarshalers(jsonv2.MarshalToFunc(func(e *jsontext.Encoder, x c16Leaf) error {
+		lit := strconv.Itoa(777000000 + len(calls))
+		if err := e.WriteToken(jsontext.Int(int64(777000000 + len(calls)))); err != nil {
+			return err
+		}
+		calls = append(calls, seen{lit, pointerTokens(e.StackPointer())})
+		return nil
+	})))
+	var out []byte
+	var err error
+	if r.IntN(2) == 0 {
+		out, err = jsonv2.Marshal(v.Interface(), opts...)
+	} else {
+		var bb bytes.Buffer
+		err = jsonv2.MarshalWrite(&bb, v.Interface(), opts...)
+		out = bb.Bytes()
+	}
+	if err != nil || len(calls) == 0 {
+		c.Note = "no marker written: " + fmt.Sprint(err)
+		return
+	}
+	k := calls[r.IntN(len(calls))]
+	off := bytes.Index(out, []byte(k.lit))
+	if off < 0 || bytes.Count(out, []byte(k.lit)) != 1 {
+		c.Note = "marker not unique in the output"
+		return
+	}
+	c.Texts = [][]int{ints(out)}
+	c.Tree = map[string]any{"off": off, "kind": "semantic", "eoff": off, "eptr": k.ptr, "streams": [][]any{}}
 }
 
 // holdsSwapper: some uMarshalerTo in the value closes its caller's container and opens another
@@ -1558,7 +1690,7 @@ func holdsSwapper(v reflect.Value, depth int) bool {
 	}
 	if v.Type() == reflect.TypeOf(uMarshalerTo{}) {
 		id := int(v.Field(0).Int())
-		return id >= 0 && id < 100 && (id%16 == 12 || id%16 == 13)
+		return id >= 0 && id < 100 && (id%18 == 12 || id%18 == 13)
 	}
 	switch v.Kind() {
 	case reflect.Struct:
